@@ -703,19 +703,15 @@ func (cm *circuitMap) TrimOpenCircuits(chanID lnwire.ShortChannelID,
 
 	var trimmedOutKeys []CircuitKey
 
-	// Scan forward from the last unacked htlc id, stopping as soon as we
-	// don't find any more. Outgoing htlc id's must be assigned in order,
-	// so there should never be disjoint segments of keystones to trim.
+	// Trim every keystone of this channel at or above the last unacked
+	// htlc id. Outgoing htlc id's are assigned in order, but the segment
+	// of keystones to trim is not necessarily contiguous: keystones whose
+	// incoming channel was fully closed may have been purged on startup
+	// (cleanClosedChannels), leaving gaps.
 	cm.mtx.Lock()
-	for i := start; ; i++ {
-		outKey := CircuitKey{
-			ChanID: chanID,
-			HtlcID: i,
-		}
-
-		circuit, ok := cm.opened[outKey]
-		if !ok {
-			break
+	for outKey, circuit := range cm.opened {
+		if outKey.ChanID != chanID || outKey.HtlcID < start {
+			continue
 		}
 
 		circuit.Outgoing = nil
